@@ -92,12 +92,36 @@ def h3(ck: Check) -> None:
             probs.append("add_edge is not restricted to missing edges (an existing edge's motif list would be overwritten)")
     if len(apps) != 1 or text(apps[0].args[0]) != motif or f"[{par}, {child}]" not in fm.key(apps[0].func.value, fm.cfgn(apps[0])):
         probs.append("a further stable motif of an existing edge is not appended to that edge's all_motifs")
-    rec = [fm.cfgn(x) for x in adds + apps]
+    # the existing-edge path records the motif unless it is already recorded: an edge can be inserted again (a second
+    # SCC expansion, an attachment into an expanded region), and successions_to_target multiplies the lengths of the
+    # motif lists along a path, so duplicates make the control work grow with the call history, not with the diagram
+    already = []
+    if len(apps) == 1:
+        an = fm.cfgn(apps[0])
+        pc = fm.pc(an)
+        lk = fm.key(apps[0].func.value, an)
+        ina = logic.B(f"in:{motif}|{lk}")
+        if ina[1] not in logic.atoms(pc) or not logic.implies(pc, logic.Not(ina)):
+            probs.append("a stable motif is appended to an existing edge without testing that it is not recorded yet: re-inserting "
+                         "the edge duplicates the motif, and the number of (identical) successions and the control work grow "
+                         "as r**depth with the number r of repetitions")
+        else:
+            for b in fm.cfg.nodes:
+                if b.kind == "branch" and b.test is not None and b.id in fm.cfg.g:
+                    tnode = fm.cfg.nodes[next(iter(fm.cfg.g.predecessors(b.id)))]
+                    ff = fm.formula(b.test, tnode)
+                    ff = ff if b.pol else logic.Not(ff)
+                    try:
+                        if logic.atoms(ff) == {ina[1]} and logic.equivalent(ff, ina):
+                            already.append(b)
+                    except logic.TooBig:
+                        pass
+    rec = [fm.cfgn(x) for x in adds + apps] + already
     if rec and escapes(fm, fm.cfg.entry, rec, None, need_pre=False):
         probs.append("a path through _ensure_edge records no motif at all (e.g. an early return when the edge exists): the edge "
                      "then carries only some of the stable motifs that lead to the child")
     ck.ob("H3", fm, f.node, not probs, "; ".join(probs) if probs else
-          "every call records its motif: new edge [m], existing edge append(m)", key="motif accumulation")
+          "every call records its motif exactly once: new edge [m], existing edge append(m) unless present", key="motif accumulation")
     # _ensure_node passes the unpercolated motif
     en = prog.fm(SD_MOD, "SuccessionDiagram._ensure_node")
     calls = [n for n in own_walk(en.f.node) if isinstance(n, ast.Call) and callee_name(n) == "_ensure_edge"]
